@@ -22,7 +22,7 @@ WHAT MAKES A GOOD CHANGE
 * The existing tests must still pass WITH the change: run, from the worktree,
     cd {wt} && PYTHONPATH={wt}/src /venv/bin/python -m pytest -q -p no:cacheprovider --timeout=900 tests/ -x -q
   (about 6-10 minutes for the full suite; run relevant test files first while iterating, then the FULL suite once per final change and report the pass/fail counts; on the unmodified worktree the full suite gives 55 passed, 5 skipped). A change that makes any test fail is not acceptable.
-* Provide for each change a small stand-alone demonstration script demo.py (uses only pygom/numpy/scipy/sympy, runs in < 60 s with `PYTHONPATH=<tree>/src /venv/bin/python demo.py`, exits 0 when the property holds on the scenario it checks and exits 1 printing what went wrong when it does not). It must exit 1 with your change applied and exit 0 on the unmodified tree (`git stash` / `git checkout -- .` to compare). Tips for writing demos: build models with `from pygom import SimulateOde, Transition, Event`; evaluators compile via cython by default which takes seconds per evaluator - set `model._SC = pygom.model.ode_utils.compileCode(backend='lambda')` right after construction for speed; set parameters with `model.parameters = [...]`; for stochastic runs use `model.initial_values = (numpy.array(x0), numpy.float64(0))`.
+* Provide for each change a small stand-alone demonstration script demo.py (uses only pygom/numpy/scipy/sympy, runs in < 60 s with `PYTHONPATH=<tree>/src /venv/bin/python demo.py`, exits 0 when the property holds on the scenario it checks and exits 1 printing what went wrong when it does not). It must exit 1 with your change applied and exit 0 on the unmodified tree (to compare: `git diff > /tmp/<your-own-name>.diff; git checkout -- .; ...; git apply /tmp/<your-own-name>.diff` - do NOT use `git stash`: the stash is shared by all worktrees of this repository and other agents are working in sibling worktrees). Tips for writing demos: build models with `from pygom import SimulateOde, Transition, Event`; evaluators compile via cython by default which takes seconds per evaluator - set `model._SC = pygom.model.ode_utils.compileCode(backend='lambda')` right after construction for speed; set parameters with `model.parameters = [...]`; for stochastic runs use `model.initial_values = (numpy.array(x0), numpy.float64(0))`.
 
 {STYLE_B if style == "b" else ""}
 DELIVERABLES: create the directory {wt}/SEEDED/ and in it, for k = 1..{n}: `change{{k}}.diff` (output of `git diff` for that change alone, relative to the unmodified worktree HEAD), `demo{{k}}.py`, and `meta{{k}}.json` with keys: property, summary (one sentence), needs_to_manifest (what specific input/sequence/shape is required), files_touched, tests_run (command and result counts), demo_result_with_change, demo_result_without_change. Leave the worktree source UNMODIFIED at the end (`git checkout -- .`), with only the SEEDED/ directory added. Your final message: a short table of the {n} changes (summary, what it needs to manifest, test results, demo results).""")
